@@ -205,8 +205,10 @@ def gen_run(rng, cfg):
                     dirty_next = True
         elif kind == "parse_file":
             op["obj"] = main_obj if rng.random() < 0.8 else rng.choice(["P0", "P1"])
-            op["filename"] = rng.choice(["vfs/a.c", "vfs/b.c", "vfs/dir/x.c"])
+            op["filename"] = rng.choice(["vfs/a.c", "vfs/b.c", "vfs/dir/x.c", "vfs/dir/a.c"])
             op["use_cpp"] = rng.random() < 0.4
+            if rng.random() < 0.4:
+                op["encoding"] = rng.choice(["utf-8", "latin-1"])
             if op["use_cpp"]:
                 op["cpp_args"] = rng.choice(["", "-Iinc", ["-Iinc", "-DX=1"]])
             if enabled and rng.random() < fault_rate:
